@@ -85,6 +85,13 @@ def pvals_world(values, objs):
     for i, txt in enumerate(["\\w{2,}", "{name}'s", "a\tb{UNDEF}", "plain's \\ no group", ["{x}\\y", {'k': "q'{UNDEF}"}]]):
         variants[f'esc{i}'] = [[['configs', 'root', 'values', 'v'], txt], [['global_vars'], {'DIR': '/d'}]]
         variants[f'esc{i}_nogv'] = [[['configs', 'root', 'values', 'v'], txt]]
+    # two DIFFERENT placeholders that stand for the same text on this machine: each value keeps its own placeholder form (a representation
+    # remembered per substituted text would hand the first one's to the second)
+    twin_gv = [['global_vars'], {'DIR': '/d', 'DIR2': '/d'}]
+    variants['twin_both'] = [[['configs', 'root', 'values', 'v'], ['{DIR}/c', '{DIR2}/c', {'k': '{DIR2}/c'}]], [['configs', 'root', 'values', 'other_name'], '{DIR2}/c'], twin_gv]
+    variants['twin_first'] = [[['configs', 'root', 'values', 'v'], '{DIR}/c'], twin_gv]
+    variants['twin_second'] = [[['configs', 'root', 'values', 'v'], '{DIR2}/c'], twin_gv]
+    variants['twin_literal'] = [[['configs', 'root', 'values', 'v'], '/d/c'], twin_gv]
     variants['path'] = [[['configs', 'root', 'values', 'v'], 0], [['configs', 'root', 'values', 'pth'], '/some/path']]
     variants['pathph'] = [[['configs', 'root', 'values', 'v'], 0], [['configs', 'root', 'values', 'pth'], '{DIR}/p'], [['global_vars'], {'DIR': '/d'}]]
     variants['ign'] = [[['configs', 'root', 'values', 'v'], 0], [['configs', 'root', 'values', 'ign'], 5]]
